@@ -6,7 +6,8 @@ From FT.lib Require Import Num Arr ArrLemmas Lower NumArr.
 From FT.gen Require Import Common Interp2d Interp3d Vinterp2d Vinterp3d FteikCommon Fteik2d Fteik3d Ray2d Ray3d.
 From FT.model Require Import Api.
 From FT.proofs Require Import Sweep2dProofs OperatorsR ApiProofs.
-From FT.proofs Require Operators3R InitSym InitExact SolveScale2d NonNeg3d SolveScale3d.
+From FT.gen Require Import Vinterp2d Vinterp3d Interp2d Interp3d.
+From FT.proofs Require Operators3R InitSym InitExact SolveScale2d NonNeg3d SolveScale3d VinterpScale.
 Import ListNotations.
 Open Scope R_scope.
 
@@ -369,6 +370,95 @@ Theorem C05_solve3d_scale_slowness_bounded :
          SolveScale3d.SameReach3 (dim slow 0 + 1) (dim slow 1 + 1) (dim slow 2 + 1) tt tt'.
 Proof. exact @SolveScale3d.fteik3d_scale_slowness_bounded. Qed.
 
+(* cell location commutes with scaling axis and query by c > 0 (any array) *)
+Theorem C05_cell_location_commutes_with_scaling :
+  forall (c : R) (x : arr R) (q : R),
+       0 < c -> searchsorted_right (VinterpScale.scale_arr c x) (c * q) = searchsorted_right x q.
+Proof. exact @VinterpScale.ssr_scale. Qed.
+
+(* traveltime interpolation, both units at once: lengths (axes, query, source) by cl > 0, node times by cl*cz, source slowness by cz: the value is cl*cz times the original inside the hull and the fill value outside - every branch (source cell, zero corner, far faces, generic), NO hypothesis on the arrays *)
+Theorem C05_interpolated_time_scales_both_units_2d :
+  forall (cl cz : R) (x y v : arr R) (xq yq xsrc ysrc vzero fval : R),
+       0 < cl ->
+       cz <> 0 ->
+       u_vinterp2d_v (VinterpScale.scale_arr cl x) (VinterpScale.scale_arr cl y) (VinterpScale.scale_arr (cl * cz) v)
+         (cl * xq) (cl * yq) (cl * xsrc) (cl * ysrc) (cz * vzero) fval =
+       (if TranslateR.inhullb x xq && TranslateR.inhullb y yq
+        then cl * cz * u_vinterp2d_v x y v xq yq xsrc ysrc vzero fval
+        else fval).
+Proof. exact @VinterpScale.vinterp2d_scale. Qed.
+
+(* length scaling alone *)
+Theorem C05_interpolated_time_scales_with_length_2d :
+  forall (c : R) (x y v : arr R) (xq yq xsrc ysrc vzero fval : R),
+       0 < c ->
+       u_vinterp2d_v (VinterpScale.scale_arr c x) (VinterpScale.scale_arr c y) (VinterpScale.scale_arr c v) 
+         (c * xq) (c * yq) (c * xsrc) (c * ysrc) vzero fval =
+       (if TranslateR.inhullb x xq && TranslateR.inhullb y yq
+        then c * u_vinterp2d_v x y v xq yq xsrc ysrc vzero fval
+        else fval).
+Proof. exact @VinterpScale.vinterp2d_scale_length. Qed.
+
+(* slowness scaling alone *)
+Theorem C05_interpolated_time_scales_with_slowness_2d :
+  forall (c : R) (x y v : arr R) (xq yq xsrc ysrc vzero fval : R),
+       c <> 0 ->
+       u_vinterp2d_v x y (VinterpScale.scale_arr c v) xq yq xsrc ysrc (c * vzero) fval =
+       (if TranslateR.inhullb x xq && TranslateR.inhullb y yq
+        then c * u_vinterp2d_v x y v xq yq xsrc ysrc vzero fval
+        else fval).
+Proof. exact @VinterpScale.vinterp2d_scale_slowness. Qed.
+
+(* 3D *)
+Theorem C05_interpolated_time_scales_both_units_3d :
+  forall (cl cz : R) (x y z v : arr R) (xq yq zq xsrc ysrc zsrc vzero fval : R),
+       0 < cl ->
+       cz <> 0 ->
+       u_vinterp3d_v (VinterpScale.scale_arr cl x) (VinterpScale.scale_arr cl y) (VinterpScale.scale_arr cl z)
+         (VinterpScale.scale_arr (cl * cz) v) (cl * xq) (cl * yq) (cl * zq) (cl * xsrc) (cl * ysrc) 
+         (cl * zsrc) (cz * vzero) fval =
+       (if TranslateR.inhullb x xq && TranslateR.inhullb y yq && TranslateR.inhullb z zq
+        then cl * cz * u_vinterp3d_v x y z v xq yq zq xsrc ysrc zsrc vzero fval
+        else fval).
+Proof. exact @VinterpScale.vinterp3d_scale. Qed.
+
+(* 3D *)
+Theorem C05_interpolated_time_scales_with_length_3d :
+  forall (c : R) (x y z v : arr R) (xq yq zq xsrc ysrc zsrc vzero fval : R),
+       0 < c ->
+       u_vinterp3d_v (VinterpScale.scale_arr c x) (VinterpScale.scale_arr c y) (VinterpScale.scale_arr c z)
+         (VinterpScale.scale_arr c v) (c * xq) (c * yq) (c * zq) (c * xsrc) (c * ysrc) (c * zsrc) vzero fval =
+       (if TranslateR.inhullb x xq && TranslateR.inhullb y yq && TranslateR.inhullb z zq
+        then c * u_vinterp3d_v x y z v xq yq zq xsrc ysrc zsrc vzero fval
+        else fval).
+Proof. exact @VinterpScale.vinterp3d_scale_length. Qed.
+
+(* 3D *)
+Theorem C05_interpolated_time_scales_with_slowness_3d :
+  forall (c : R) (x y z v : arr R) (xq yq zq xsrc ysrc zsrc vzero fval : R),
+       c <> 0 ->
+       u_vinterp3d_v x y z (VinterpScale.scale_arr c v) xq yq zq xsrc ysrc zsrc (c * vzero) fval =
+       (if TranslateR.inhullb x xq && TranslateR.inhullb y yq && TranslateR.inhullb z zq
+        then c * u_vinterp3d_v x y z v xq yq zq xsrc ysrc zsrc vzero fval
+        else fval).
+Proof. exact @VinterpScale.vinterp3d_scale_slowness. Qed.
+
+(* model / gradient-grid evaluation: axes and query scaled by c > 0, same node values: same value, every query point (gradient directions unchanged) *)
+Theorem C05_grid_evaluation_unit_invariant_2d :
+  forall (c : R) (x y v : arr R) (xq yq fval : R),
+       0 < c ->
+       u_interp2d_v (VinterpScale.scale_arr c x) (VinterpScale.scale_arr c y) v (c * xq) (c * yq) fval =
+       u_interp2d_v x y v xq yq fval.
+Proof. exact @VinterpScale.interp2d_scale. Qed.
+
+(* 3D *)
+Theorem C05_grid_evaluation_unit_invariant_3d :
+  forall (c : R) (x y z v : arr R) (xq yq zq fval : R),
+       0 < c ->
+       u_interp3d_v (VinterpScale.scale_arr c x) (VinterpScale.scale_arr c y) (VinterpScale.scale_arr c z) v 
+         (c * xq) (c * yq) (c * zq) fval = u_interp3d_v x y z v xq yq zq fval.
+Proof. exact @VinterpScale.interp3d_scale. Qed.
+
 Print Assumptions C05_t_ana_scale_slowness.
 Print Assumptions C05_t_ana_scale_length.
 Print Assumptions C05_t_anad_scale_slowness.
@@ -394,3 +484,12 @@ Print Assumptions C05_solve3d_scale_slowness.
 Print Assumptions C05_solve3d_scale_length.
 Print Assumptions C05_solve3d_scale_raises.
 Print Assumptions C05_solve3d_scale_slowness_bounded.
+Print Assumptions C05_cell_location_commutes_with_scaling.
+Print Assumptions C05_interpolated_time_scales_both_units_2d.
+Print Assumptions C05_interpolated_time_scales_with_length_2d.
+Print Assumptions C05_interpolated_time_scales_with_slowness_2d.
+Print Assumptions C05_interpolated_time_scales_both_units_3d.
+Print Assumptions C05_interpolated_time_scales_with_length_3d.
+Print Assumptions C05_interpolated_time_scales_with_slowness_3d.
+Print Assumptions C05_grid_evaluation_unit_invariant_2d.
+Print Assumptions C05_grid_evaluation_unit_invariant_3d.
